@@ -64,9 +64,17 @@ Record mctx := mkM {
   m_done : bool;       (* Done() observed closed *)
   m_rearms : nat }.    (* loop iterations observed *)
 
-Record mon := mkMon { mo_tl : tl; mo_ctxs : list mctx }.
+(* what the monitor has been told about a timer (SuspendableClock.NewTimer) *)
+Record mtmr := mkMT {
+  mt_birth : birth;
+  mt_parked : bool;     (* goroutine between two critical sections *)
+  mt_stopped : bool;    (* Stop() returned true *)
+  mt_delivered : bool;  (* a value was published on the result channel *)
+  mt_rearms : nat }.
 
-Definition mon0 : mon := mkMon tl0 [].
+Record mon := mkMon { mo_tl : tl; mo_ctxs : list mctx; mo_tmrs : list mtmr }.
+
+Definition mon0 : mon := mkMon tl0 [] [].
 
 Definition m_T0 (m : mctx) := b_T0 (m_birth m).
 Definition m_U0 (m : mctx) := b_U0 (m_birth m).
@@ -100,22 +108,53 @@ Definition note_out (m : mctx) (o : out) : mctx :=
   | _ => m
   end.
 
+Definition ctxs_step (c : cfg) (t : tl) (l : list mctx) (e : event) (o : out) : list mctx :=
+  match e with
+  | NewCtx d => (l ++ [mkM (mkBirth (tl_now t) (tl_uns t) d) false false true false 0%nat])%list
+  | _ =>
+    match target e with
+    | Some id =>
+      match nth_error l id with
+      | Some m => set_nth id (note_out (note_event c t m e) o) l
+      | None => l
+      end
+    | None => l
+    end
+  end.
+
+(* which timer an event is about *)
+Definition ttarget (e : event) : option nat :=
+  match e with
+  | TArm id | TFire id _ | TMaxFire id _ | TStop id => Some id
+  | _ => None
+  end.
+
+Definition tnote (m : mtmr) (e : event) (o : out) : mtmr :=
+  let parked := match e with TArm _ => false | _ => mt_parked m end in
+  match o with
+  | ORearm _ => mkMT (mt_birth m) true (mt_stopped m) (mt_delivered m) (S (mt_rearms m))
+  | ODeliver _ _ _ => mkMT (mt_birth m) parked (mt_stopped m) true (mt_rearms m)
+  | OTStop true _ => mkMT (mt_birth m) parked true (mt_delivered m) (mt_rearms m)
+  | _ => mkMT (mt_birth m) parked (mt_stopped m) (mt_delivered m) (mt_rearms m)
+  end.
+
+Definition tmrs_step (t : tl) (l : list mtmr) (e : event) (o : out) : list mtmr :=
+  match e with
+  | TNew d => (l ++ [mkMT (mkBirth (tl_now t) (tl_uns t) d) true false false 0%nat])%list
+  | _ =>
+    match ttarget e with
+    | Some id =>
+      match nth_error l id with
+      | Some m => set_nth id (tnote m e o) l
+      | None => l
+      end
+    | None => l
+    end
+  end.
+
 Definition mon_step (c : cfg) (mo : mon) (e : event) (o : out) : mon :=
   let t := mo_tl mo in
-  let ctxs :=
-    match e with
-    | NewCtx d => (mo_ctxs mo ++ [mkM (mkBirth (tl_now t) (tl_uns t) d) false false true false 0%nat])%list
-    | _ =>
-      match target e with
-      | Some id =>
-        match nth_error (mo_ctxs mo) id with
-        | Some m => set_nth id (note_out (note_event c t m e) o) (mo_ctxs mo)
-        | None => mo_ctxs mo
-        end
-      | None => mo_ctxs mo
-      end
-    end in
-  mkMon (tl_step t e) ctxs.
+  mkMon (tl_step t e) (ctxs_step c t (mo_ctxs mo) e o) (tmrs_step t (mo_tmrs mo) e o).
 
 (* ---- the property, one step ------------------------------------------------------ *)
 
@@ -176,6 +215,48 @@ Definition p_storage (k : skind) (o : out) : string :=
   | _ => "storage-no-observation"
   end.
 
+(* ---- timers ---- *)
+
+Definition mt_T0 (m : mtmr) := b_T0 (mt_birth m).
+Definition mt_U0 (m : mtmr) := b_U0 (mt_birth m).
+Definition mt_d (m : mtmr) := b_d (mt_birth m).
+
+Definition p_trearm (c : cfg) (t : tl) (m : mtmr) (tf d' : Z) : string :=
+  let U := tl_uns t - mt_U0 m in
+  if mt_delivered m || mt_stopped m then "timer-rearm-after-end"
+  else if d' <? thr c then "timer-rearm-below-threshold"
+  else if negb ((mt_d m - U <=? d') && (d' <=? mt_d m - U + (tl_now t - tf))) then "timer-rearm-wrong-remaining"
+  else if negb (Z.of_nat (mt_rearms m) * thr c <=? tl_now t - mt_T0 m - mt_d m) then "timer-rearm-too-many"
+  else "".
+
+Definition p_tdeliver (c : cfg) (t : tl) (m : mtmr) (viaMax : bool) (tf v : Z) (ms bs : bool) : string :=
+  let U := tl_uns t - mt_U0 m in
+  if mt_delivered m then "timer-delivered-twice"
+  else if mt_stopped m then "timer-delivered-after-stop"
+  else if negb (v =? tf) then "timer-value-wrong"
+  else if viaMax then
+    if negb (mt_T0 m + mt_d m + maxSusp c <=? tl_now t) then "timer-cap-too-early"
+    else if negb bs then "base-timer-not-stopped" else ""
+  else
+    if negb (mt_d m - thr c <? U) then "timer-too-early"
+    else if negb ms then "max-timer-not-stopped" else "".
+
+Definition p_tstep (c : cfg) (t : tl) (m : mtmr) (e : event) (o : out) : string :=
+  match e, o with
+  | TFire _ tf, ODeliver v ms bs => p_tdeliver c t m false tf v ms bs
+  | TMaxFire _ tf, ODeliver v ms bs => p_tdeliver c t m true tf v ms bs
+  | _, ODeliver _ _ _ => "timer-delivered-unexpectedly"
+  | TFire _ tf, ORearm d' => p_trearm c t m tf d'
+  | _, ORearm _ => "timer-rearm-without-fire"
+  | TStop _, OTStop ret gone =>
+    if negb (Bool.eqb ret (negb (mt_stopped m || mt_delivered m))) then "stop-result-wrong"
+    else if ret && negb (mt_parked m) && negb gone then "stop-ignored"
+    else ""
+  | TArm _, OTGone => if mt_stopped m then "" else "timer-gone-without-stop"
+  | TArm _, ONone => if mt_stopped m && mt_parked m then "stop-ignored" else ""
+  | _, _ => ""
+  end.
+
 Definition p_step (c : cfg) (mo : mon) (e : event) (o : out) : string :=
   let t := mo_tl mo in
   match e with
@@ -188,6 +269,19 @@ Definition p_step (c : cfg) (mo : mon) (e : event) (o : out) : string :=
     | _ => "new-without-requests"
     end
   | Storage k _ _ _ => p_storage k o
+  | TNew d =>
+    match o with
+    | ONew rm rt =>
+      if negb (rm =? d + maxSusp c) then "max-timer-wrong"
+      else if negb (rt =? d) then "first-timer-wrong"
+      else ""
+    | _ => "new-without-requests"
+    end
+  | TArm id | TFire id _ | TMaxFire id _ | TStop id =>
+    match nth_error (mo_tmrs mo) id with
+    | Some m => p_tstep c t m e o
+    | None => ""
+    end
   | _ =>
     match target e with
     | Some id =>
